@@ -374,3 +374,37 @@ def h_move2(dt: int, pick: int, e: float) -> bool:
             return False
         return v2.position.link_id == "L2" or (v2.geoid == A.CELL_B and dt == _TT1)
     return len(r2) == 0 and feq(d_odo, _L1.distance_km + _L2.distance_km)
+
+
+def h_move_deg(dt: int, pick: int, kind: int) -> bool:
+    """
+    C07: a vehicle standing on the end node of its link is sent on (street-graph route = zero-length stub + next link):
+    after real move() the stored route still starts at the vehicle and ends at the target; an emptied route means arrival
+    pre: 1 <= dt <= 400 and 0 <= pick <= 2 and 0 <= kind <= 1
+    post: _
+    """
+    from nrel.hive.state.vehicle_state.vehicle_state_ops import move
+    from nrel.hive.state.simulation_state import simulation_state_ops as sso
+    from vf.h import inv as I
+
+    stub = _L1._replace(start=A.CELL_B, end=A.CELL_B)  # same link id and length as L1, but the vehicle is already at its end
+    net = _Net2({"L1": _L1, "L2": _L2})
+    route = (stub, _L2)
+    st = A.Repositioning.build("v0", route) if kind == 0 else A.DispatchTrip.build("v0", "r0", route)
+    v = replace(A.V0, position=A.POS[1], vehicle_state=st, energy=immutables.Map({A.E: 40.0}))
+    sim = A.SIM0._replace(road_network=net, sim_time=mk_time(1000), sim_timestep_duration_seconds=dt)
+    sim = sso.add_vehicle_safe(sim, v).unwrap()
+    sim = sso.add_request_safe(sim, A.R0).unwrap()  # r0 waits at C, the end of L2
+    env, rec = A.env_with_recorder()
+    stubs.H3_SHIM.candidates = ()
+    stubs.H3_SHIM.pick = pick
+    err, sim2 = move(sim, env, "v0")  # ---- real code
+    if err is not None or sim2 is None:
+        return False
+    v2 = sim2.vehicles["v0"]
+    note("move-deg", "arrived" if len(v2.vehicle_state.route) == 0 else "under way")
+    if not I.loc_ok_vehicle(sim2, v2):
+        return False
+    if len(v2.vehicle_state.route) == 0:
+        return v2.geoid == A.CELL_C
+    return v2.vehicle_state.route[-1].end == A.CELL_C
